@@ -63,35 +63,6 @@ fn chk_contains(c: &mut Ctx, r: &LineRange, x: u32) {
         Err(p) => c.fail("LineRange::contains", "safety", input, p, "no panic".into()),
     }
 }
-fn chk_overlaps(c: &mut Ctx, a: &LineRange, b: &LineRange) {
-    if !nonempty(a) || !nonempty(b) { return; }
-    c.evaluated += 1;
-    let input = format!("{};{}", enc_r(a), enc_r(b));
-    let want = lo(a).max(lo(b)) <= hi(a).min(hi(b));
-    match guarded(|| a.overlaps(b)) {
-        Ok(g) => if g != want { c.fail("LineRange::overlaps", "ensures#0", input, g.to_string(), want.to_string()) },
-        Err(p) => c.fail("LineRange::overlaps", "safety", input, p, "no panic".into()),
-    }
-}
-fn chk_remove(c: &mut Ctx, a: &LineRange, b: &LineRange) {
-    if !nonempty(a) || !nonempty(b) { return; }
-    c.evaluated += 1;
-    let input = format!("{};{}", enc_r(a), enc_r(b));
-    match guarded(|| a.remove(b)) {
-        Ok(out) => {
-            let mut pts: Vec<i128> = vec![];
-            for r in [a, b].into_iter().chain(out.iter()) { for d in -1..=1 { pts.push(lo(r) + d); pts.push(hi(r) + d); } }
-            for &x in &pts {
-                let want = has(a, x) && !has(b, x);
-                if ranges_have(&out, x) != want { c.fail("LineRange::remove", "ensures#0", input.clone(), format!("{} (line {} {})", enc_rs(&out), x, if want { "missing" } else { "wrongly present" }), "self minus to_remove".into()); return; }
-            }
-            if !out.iter().all(nonempty) { c.fail("LineRange::remove", "ensures#1", input.clone(), enc_rs(&out), "every piece non-empty".into()); return; }
-            if !(0..out.len()).all(|i| (i + 1..out.len()).all(|j| hi(&out[i]) + 1 < lo(&out[j]))) { c.fail("LineRange::remove", "ensures#2", input.clone(), enc_rs(&out), "pieces sorted and separated".into()); return; }
-            if out.len() > 2 { c.fail("LineRange::remove", "ensures#3", input, enc_rs(&out), "at most two pieces".into()); }
-        }
-        Err(p) => c.fail("LineRange::remove", "safety", input, p, "no panic".into()),
-    }
-}
 fn chk_compress(c: &mut Ctx, lines: &[u32]) {
     if !lines.windows(2).all(|w| w[0] < w[1]) { return; }
     c.evaluated += 1;
@@ -122,16 +93,6 @@ fn chk_expand(c: &mut Ctx, r: &LineRange) {
         Err(p) => c.fail("LineRange::expand", "safety", input, p, "no panic".into()),
     }
 }
-fn chk_shift(c: &mut Ctx, r: &LineRange, ip: u32, off: i32) {
-    c.evaluated += 1;
-    let input = format!("{};{};{}", enc_r(r), ip, off);
-    let want = shift_spec(r, ip as i128, off as i128);
-    match guarded(|| r.shift(ip, off)) {
-        Ok(g) => if g != want { c.fail("LineRange::shift", "ensures#0", input, format!("{:?}", g.as_ref().map(enc_r)), format!("{:?}", want.as_ref().map(enc_r))) },
-        Err(p) => c.fail("LineRange::shift", "safety", input, p, "no panic".into()),
-    }
-}
-
 // ------------------------------------------------------------------ generators
 struct Rng(u64);
 impl Rng {
@@ -149,13 +110,7 @@ fn search(c: &mut Ctx, which: &str, seed: u64) {
     let want = |n: &str| which == "*" || which == n || n.ends_with(which);
     let rs = small_ranges();
     if want("LineRange::contains") { for r in &rs { for &x in &SMALL { chk_contains(c, r, x); } } }
-    if want("LineRange::overlaps") { for a in &rs { for b in &rs { chk_overlaps(c, a, b); } } }
-    if want("LineRange::remove") { for a in &rs { for b in &rs { chk_remove(c, a, b); } } }
     if want("LineRange::expand") { for r in &rs { chk_expand(c, r); } }
-    if want("LineRange::shift") {
-        let offs: [i32; 9] = [0, 1, -1, 2, -2, 5, -5, i32::MAX, i32::MIN];
-        for r in &rs { for &ip in &SMALL { for &o in &offs { chk_shift(c, r, ip, o); } } }
-    }
     if want("LineRange::compress_lines") {
         // every strictly increasing sequence over a 12-element value set (all 4096 subsets)
         let vals: [u32; 12] = [0, 1, 2, 3, 5, 6, 8, 9, 10, u32::MAX - 2, u32::MAX - 1, u32::MAX];
@@ -172,10 +127,7 @@ fn search(c: &mut Ctx, which: &str, seed: u64) {
         let a = mk(&mut g); let b = mk(&mut g);
         let x = base.saturating_add(g.below(60) as u32);
         if want("LineRange::contains") { chk_contains(c, &a, x); }
-        if want("LineRange::overlaps") { chk_overlaps(c, &a, &b); }
-        if want("LineRange::remove") { chk_remove(c, &a, &b); }
         if want("LineRange::expand") { chk_expand(c, &a); }
-        if want("LineRange::shift") { let off = (g.below(81) as i32) - 40; chk_shift(c, &a, x, off); }
         if want("LineRange::compress_lines") {
             let n = g.below(14) as usize; let mut v = vec![]; let mut cur = base;
             for _ in 0..n { let step = 1 + if g.below(2) == 0 { 0 } else { g.below(4) as u32 }; match cur.checked_add(step) { Some(nx) => { cur = nx; v.push(cur); } None => break } }
@@ -188,10 +140,7 @@ fn replay(c: &mut Ctx, f: &str, input: &str) {
     let p: Vec<&str> = input.split(';').collect();
     match f {
         "LineRange::contains" => chk_contains(c, &dec_r(p[0]), p[1].parse().unwrap()),
-        "LineRange::overlaps" => chk_overlaps(c, &dec_r(p[0]), &dec_r(p[1])),
-        "LineRange::remove" => chk_remove(c, &dec_r(p[0]), &dec_r(p[1])),
         "LineRange::expand" => chk_expand(c, &dec_r(p[0])),
-        "LineRange::shift" => chk_shift(c, &dec_r(p[0]), p[1].parse().unwrap(), p[2].parse().unwrap()),
         "LineRange::compress_lines" => chk_compress(c, &dec_v(p[0])),
         _ => println!("unknown function {}", f),
     }
